@@ -8,6 +8,8 @@ import (
 	"google.golang.org/grpc/balancer"
 	"google.golang.org/grpc/connectivity"
 	"google.golang.org/grpc/resolver"
+
+	pb "github.com/GoogleCloudPlatform/grpc-gcp-go/grpcgcp/grpc_gcp"
 )
 
 // Step lemma for the aggregate counters (full 64-bit): from counters consistent with an arbitrary
@@ -265,8 +267,21 @@ func VerifH_uccs() {
 	addrs := []resolver.Address{{Addr: verifChoose("addr0", "x", "y", "z")}, {Addr: "w"}}[:n]
 	pre := w.snap()
 	emptyPool := len(gb.scRefs) == 0
+	// the update may carry a (different) configuration: it is fixed by the first update (C17)
+	var bc interface{}
+	if verifBool("carriesConfig") {
+		bc = &GCPBalancerConfig{ApiConfig: &pb.ApiConfig{ChannelPool: &pb.ChannelPoolConfig{MinSize: verifU32("cfg2min"), MaxSize: verifU32("cfg2max"), FallbackToReady: verifBool("cfg2fb")}}}
+	}
+	cfg0, cp0 := gb.cfg, gb.cfg.ChannelPool
+	min0, max0, wm0, fb0 := cp0.MinSize, cp0.MaxSize, cp0.MaxConcurrentStreamsLowWatermark, cp0.FallbackToReady
+	nMethods0 := len(gb.methodCfg)
 	verifReach("before")
-	err := gb.UpdateClientConnState(balancer.ClientConnState{ResolverState: resolver.State{Addresses: addrs}})
+	ccs := balancer.ClientConnState{ResolverState: resolver.State{Addresses: addrs}}
+	if bc != nil {
+		ccs.BalancerConfig = bc.(*GCPBalancerConfig)
+	}
+	err := gb.UpdateClientConnState(ccs)
+	verifAssert(gb.cfg == cfg0 && gb.cfg.ChannelPool == cp0 && cp0.MinSize == min0 && cp0.MaxSize == max0 && cp0.MaxConcurrentStreamsLowWatermark == wm0 && cp0.FallbackToReady == fb0 && len(gb.methodCfg) == nMethods0, "C17: configuration changed by a later resolver update")
 	verifReach("after")
 	post := w.snap()
 	verifAssert(err == nil, "C20: resolver update with a fixed configuration returned an error")
